@@ -176,6 +176,12 @@ def programs():
     out.append(("header:4", "real(kind=kk(1, 2)) function rf(x) result(r)\nend function rf\n", "f2003"))
     out.append(("header:5", "type(pt(k(1, 2), 3)) function tf()\nend function tf\n", "f2003"))
     out.append(("header:6", "subroutine sb(a, b) bind(c, name='s(b')\nend subroutine sb\n", "f2003"))
+    # literals with runs of blanks in every part of a procedure header (prefix type, between prefix words, suffix)
+    out.append(("header:7", "pure  character(len=len('a  b'))  elemental function hf(x)\nend function hf\n", "f2003"))
+    out.append(("header:8", "character(len=len('c   d'), kind=kind('e  f')) function hg() result(r)\nend function hg\n", "f2003"))
+    out.append(("header:9", "function hh() bind(c, name='two  blanks')\nend function hh\n", "f2003"))
+    out.append(("header:10", "subroutine hs() bind(c, name=\"with  'quote'  inside\")\nend subroutine hs\n", "f2003"))
+    out.append(("header:11", "module m\ntype :: t\ncontains\nprocedure :: ab\nprocedure :: cd\ngeneric :: g =>ab, cd\ngeneric::h=>cd\nend type t\nend module m\n", "f2003"))
     # continuation inside a literal with blanks after the leading '&'
     out.append(("layout:0", "program p\n  msg = 'alpha&\n      &   beta  '\nend program p\n", "f2003"))
     out.append(("layout:1", "program p\n  x = 1.0e&\n  &-3 + y\nend program p\n", "f2003"))
